@@ -173,31 +173,57 @@ def make_lazy_pool(e, window_cap=2):
         def __init__(self, threads=None):
             t = threads or 1
             self.threads = t if isinstance(t, int) else t  # may be symbolic
+            self.active = False  # one imap_unordered at a time per pool object (the real pool asserts this)
 
         def __enter__(self):
             return self
 
         def __exit__(self, exc_type, exc, tb):
+            self.active = False
             if exc:
                 raise exc
             return True
 
         def imap_unordered(self, func, iterable):
-            it = iter(iterable)
-            inflight = []
-            done = False
-            while True:
-                while not done and len(inflight) < window_cap:
-                    try:
-                        inflight.append(next(it))
-                    except StopIteration:
-                        done = True
-                if not inflight:
-                    return
-                k = e.choice(f"lp_pick{e.nvars}", len(inflight)) if len(inflight) > 1 else 0
-                x = inflight.pop(k)
-                yield func(x)
+            if self.active:
+                raise AssertionError("LazyPool contract: imap_unordered started while another one is running on the same pool")
+            self.active = True
+            try:
+                it = iter(iterable)
+                inflight = []
+                done = False
+                while True:
+                    while not done and len(inflight) < window_cap:
+                        try:
+                            inflight.append(next(it))
+                        except StopIteration:
+                            done = True
+                    if not inflight:
+                        return
+                    k = e.choice(f"lp_pick{e.nvars}", len(inflight)) if len(inflight) > 1 else 0
+                    x = inflight.pop(k)
+                    yield func(x)
+            finally:
+                self.active = False
     return StubLazyPool
+
+
+def clear_module_caches(*modules):
+    """Memo tables at module level (functools caches) must not carry objects of one explored path into the next; within a
+    path they are part of the code under test."""
+    for m in modules:
+        for v in list(vars(m).values()):
+            if isinstance(v, types.ModuleType) or not callable(v):
+                continue
+            try:
+                cc = getattr(v, "cache_clear", None)
+            except Exception:  # noqa: BLE001
+                continue
+            if callable(cc):
+                try:
+                    cc()
+                except Exception:  # noqa: BLE001
+                    pass
 
 
 def patch_randomness(e, IT, shuffle_variants=2):
